@@ -6,7 +6,7 @@ import itertools
 import math
 import warnings
 
-from .common import Oracle, Suite, hx, merge
+from .common import Oracle, Suite, errname, hx, merge
 
 GEN_UNITS = ["Rng", "Handlers", "B64", "SaltGen"]
 LEAN_TARGETS = ["PasslibVerif.Props.C06"]
@@ -151,7 +151,110 @@ def correspond(ctx):
             s_len.add(f"rng minlen {len(cs)} {e}", gs, "generate_secret")
     o_cfg = Oracle(ctx, "declared-space-guards")
     guards_oracle(ctx, o_cfg)
-    return merge(s_help, s_salt, s_len, o_cfg, exhaustive=False)
+    o_lp = Oracle(ctx, "libpass-salts-uniform-and-secret-lengths")
+    for gen in (libpass_salt_cases(), secret_length_cases()):
+        for tag, inp, ok, obs, exp in gen:
+            o_lp.check(tag, ok, inp, obs, exp)
+    return merge(s_help, s_salt, s_len, o_cfg, o_lp, exhaustive=False)
+
+
+class FakeSecrets:
+    """stands in for the `secrets` module inside libpass._salt: every primitive returns its `i`-th equally likely outcome (mixed radix over the
+    calls of one invocation), so that enumerating i enumerates the source's outcomes exactly once each"""
+
+    def __init__(self):
+        self.i = 0
+        self.rest = 0
+        self.domains = []
+
+    def start(self, i):
+        self.i, self.rest, self.domains = i, i, []
+
+    def _draw(self, d):
+        self.domains.append(d)
+        v = self.rest % d
+        self.rest //= d
+        return v
+
+    def choice(self, seq):
+        return seq[self._draw(len(seq))]
+
+    def randbelow(self, k):
+        return self._draw(k)
+
+    def randbits(self, k):
+        return self._draw(1 << k)
+
+    def token_bytes(self, n=32):
+        return self._draw(256 ** n).to_bytes(n, "big")
+
+    def token_hex(self, n=32):
+        return self.token_bytes(n).hex()
+
+    def __getattr__(self, name):
+        import secrets
+
+        return getattr(secrets, name)
+
+
+def libpass_salt_cases():
+    """libpass._salt.generate_salt over an enumerated source: every salt of the declared length over the alphabet is produced by the same
+    number of source outcomes (uniform), for alphabets whose size does and does not divide 256; yields (tag, input, ok, observed, expected)"""
+    import collections
+    import string
+
+    import libpass._salt as ls
+
+    fake = FakeSecrets()
+    real = ls.secrets
+    ls.secrets = fake
+    try:
+        for chars, length in ((ls.DEFAULT_CHARS, 1), ("abc", 1), ("abc", 2), (string.digits, 1), ("ab", 3), (string.ascii_lowercase + string.digits + "./", 1)):
+            fake.start(0)
+            ls.generate_salt(length, chars)
+            total = 1
+            for d in fake.domains:
+                total *= d
+            inp = {"op": "libpass-salt", "alphabet_size": len(chars), "length": length, "source_outcomes": total}
+            if total > 1 << 17:
+                yield ("libpass-salt:enumerable", inp, False, f"{total} source outcomes for {len(chars)}^{length} salts", "a source demand proportional to the output space")
+                continue
+            counts = collections.Counter()
+            for i in range(total):
+                fake.start(i)
+                out = ls.generate_salt(length, chars)
+                counts[out] += 1
+            ok = len(counts) == len(chars) ** length and len(set(counts.values())) == 1 and all(len(o) == length and all(c in chars for c in o) for o in counts)
+            worst = counts.most_common(1)[0], counts.most_common()[-1]
+            yield ("libpass-salt:uniform", inp, ok, {"distinct": len(counts), "most": worst[0], "least": worst[1]}, f"each of the {len(chars) ** length} salts from the same number of source outcomes")
+    finally:
+        ls.secrets = real
+
+
+def secret_length_cases():
+    """totp.generate_secret / libpass generate_salt_by_entropy: the generated string carries at least the requested entropy and not a symbol more
+    than float rounding can add (exact integer arithmetic: N^count >= 2^entropy > N^(count-2))"""
+    import string
+
+    import libpass._salt as ls
+    import passlib.totp as pt
+
+    sets = [None, string.hexdigits[:16], "01", "abc", string.ascii_letters + string.digits, "".join(chr(c) for c in range(33, 127))]
+    for cs in sets:
+        for entropy in list(range(1, 70)) + [96, 120, 126, 128, 130, 160, 190, 192, 250, 252, 255, 256, 258, 500, 510, 512]:
+            for fn_name, fn in (("totp.generate_secret", lambda: pt.generate_secret(entropy) if cs is None else pt.generate_secret(entropy, cs)),
+                                ("libpass.generate_salt_by_entropy", lambda: ls.generate_salt_by_entropy(entropy) if cs is None else ls.generate_salt_by_entropy(entropy, cs))):
+                alphabet = cs if cs is not None else (pt.BASE64_CHARS[:-2] if fn_name.startswith("totp") else ls.DEFAULT_CHARS)
+                n = len(alphabet)
+                inp = {"op": "secret-length", "function": fn_name, "entropy": entropy, "alphabet_size": n}
+                try:
+                    out = fn()
+                except Exception as e:  # noqa: BLE001
+                    yield ("secret-length:" + fn_name, inp, False, errname(e), "a string")
+                    continue
+                k = len(out)
+                ok = n ** k >= 2 ** entropy and (k < 2 or n ** (k - 2) < 2 ** entropy) and all(c in alphabet for c in out)
+                yield ("secret-length:" + fn_name, inp, ok, {"length": k, "bits": round(k * math.log2(n), 2)}, f">= {entropy} bits, at most one symbol beyond the minimum")
 
 
 def guards_oracle(ctx, o, first_only=False):
@@ -294,6 +397,10 @@ def search(ctx, broken, seeds):
     fails = guards_oracle(ctx, Oracle(ctx, "search"), first_only=True)
     if fails:
         return fails[0]
+    for gen in (libpass_salt_cases(), secret_length_cases()):
+        for tag, inp, ok, obs, exp in gen:
+            if not ok:
+                return {"input": inp, "observed": obs, "expected": exp, "check": tag}
     # a context never lets a configuration pin a salt
     from passlib.context import CryptContext
 
